@@ -24,7 +24,10 @@ RULE = ("states = models reachable from {pheno, pheno+depot, pheno_linear} by <=
         "whose code or statements differ from the input and both sides were evaluated")
 ASSUMPTIONS = ["a refactoring that refuses (ValueError/NotImplementedError/ModelError) is counted, not failed",
                "evaluators are documented for models without ODE systems; they are only judged there"]
-BOUNDS = {"quick": "states at depth <= 1 (full alphabet, capped at 80 states); single refactorings", "thorough": "depth <= 2; ordered pairs of refactorings on depth <= 1 states"}
+BOUNDS = {"quick": "states at depth <= 1 (full alphabet, capped at 80 states); single refactorings; statement programs: every $PRED body of <= 3 "
+                   "straight statements / logical IFs over two reassigned symbols, or one block IF (8 shapes), through 5 statement-rewriting refactorings",
+          "thorough": "depth <= 2; ordered pairs of refactorings on depth <= 1 states; statement programs also with a statement before / after the "
+                      "block IF and pairs of block IFs"}
 
 START = ["pheno", "pheno_oral", "pheno_linear", "pred_nl"]
 
@@ -90,7 +93,126 @@ def drive(tier):
 
     from vlib import seqx
 
-    return seqx.drive(sys.modules[__name__], tier, START, depth_limit=depth_limit(tier), max_states=80 if tier == "quick" else 800)
+    results = seqx.drive(sys.modules[__name__], tier, START, depth_limit=depth_limit(tier), max_states=80 if tier == "quick" else 800)
+    if any("harness_error" in r for r in results):
+        return results
+    # statement-program round: every small $PRED program (straight-line reassignments, logical and block IFs) through the
+    # refactorings that rewrite statements
+    from vlib import core
+
+    progs = stmt_programs(tier)
+    n = 64
+    k = (len(progs) + n - 1) // n
+    shards = [("stmt", progs[i:i + k]) for i in range(0, len(progs), k)]
+    results.extend(core.pmap(__name__, shards, tier))
+    return results
+
+
+STMT_REFACTORINGS = ["make_declarative", "cleanup", "generic_and_back", "remove_unused", "update_source"]
+STMT_GRID = [{"X": x, "TH": 1.3, "ET": et, "EP": ep} for x in (-1.5, 0.0, 0.5, 2.0) for et, ep in ((0.0, 0.0), (0.3, -0.2))]
+STMT_HEAD = "$PROBLEM p\n$INPUT ID TIME X DV\n$DATA data.csv IGNORE=@\n$PRED\n"
+STMT_TAIL = "\n$THETA 1.3\n$OMEGA 0.1\n$SIGMA 1\n$ESTIMATION METHOD=1 INTER\n"
+
+
+def stmt_programs(tier):
+    """$PRED bodies: the C01 flow programs (prefix A = X, B = 1; up to three straight statements / logical IFs, or one block IF
+    with an optional statement before / after) with a response that reads both symbols, a theta, an eta and an epsilon"""
+    from vlib import nmgen
+
+    out = []
+    for fam, body in nmgen.flow_programs(tier):
+        if tier == "quick" and ("+pre" in fam or "+post" in fam):
+            continue  # block IF with a further statement before / after: thorough tier
+        if fam == "flat" and not body.startswith("A = X\nB = 1"):
+            body = "A = X\nB = 1\n" + body
+        body = body.replace("\nY = A + B*10", "\nIPRED = A + B*10 + THETA(1)*EXP(ETA(1))\nY = IPRED + IPRED*EPS(1)")
+        out.append((fam, body))
+    return out
+
+
+def stmt_values(model, g):
+    """sequential evaluation of the statements of a model at one grid point -> value of the dependent variable"""
+    from vlib.xeval import Undefined, ev
+
+    env = {"X": g["X"], "ID": 1.0, "TIME": 0.0, "DV": 0.0}
+    for p in model.parameters:
+        env[p.name] = float(p.init)
+    th = [p.name for p in model.parameters if p.name not in model.random_variables.parameter_names]
+    if th:
+        env[th[0]] = g["TH"]
+    for n in model.random_variables.etas.names:
+        env[n] = g["ET"]
+    for n in model.random_variables.epsilons.names:
+        env[n] = g["EP"]
+    for st in model.statements:
+        try:
+            env[str(st.symbol)] = ev(st.expression, env)
+        except Undefined:
+            env.pop(str(st.symbol), None)
+    y = list(model.dependent_variables.keys())[0]
+    return env.get(str(y))
+
+
+def check_stmt_program(body):
+    import warnings
+
+    from pharmpy.modeling import read_model_from_string
+    from vlib.xeval import close
+
+    with warnings.catch_warnings():
+        warnings.simplefilter("ignore")
+        try:
+            m = read_model_from_string(STMT_HEAD + body + STMT_TAIL)
+        except Exception as e:
+            return f"refused:{type(e).__name__}", [], 0
+    base = [stmt_values(m, g) for g in STMT_GRID]
+    fails = []
+    compared = 0
+    crashed = 0
+    for name in STMT_REFACTORINGS:
+        m2, outcome = apply_ref(m, name)
+        if m2 is None:
+            # no model was produced (counted in the evidence; the property speaks about the models that are returned)
+            crashed += outcome.startswith("crash")
+            continue
+        for g, v0 in zip(STMT_GRID, base):
+            if v0 is None:
+                continue
+            try:
+                v1 = stmt_values(m2, g)
+            except Exception as e:
+                fails.append(f"{name}: the refactored model cannot be evaluated: {type(e).__name__}: {str(e)[:80]}")
+                break
+            compared += 1
+            if v1 is None or not close(v1, v0, 1e-9):
+                fails.append(f"{name}: Y = {v1!r} after the refactoring, {v0!r} before, at X={g['X']} eta={g['ET']} eps={g['EP']}")
+                break
+    return ("ok" if not crashed else "ok-some-refactoring-crashed"), fails, compared
+
+
+def run_stmt_shard(shard, tier):
+    res = {"states": 0, "transitions": 0, "evaluations": 0, "distinct_nontrivial": 0, "violations": [], "samples": [],
+           "outcomes": {}, "traces_validated_against_impl": 0, "stmt_programs": 0, "stmt_values_compared": 0}
+    for fam, body in shard[1]:
+        status, fails, compared = check_stmt_program(body)
+        res["states"] += 1
+        res["stmt_programs"] += 1
+        res["transitions"] += len(STMT_REFACTORINGS)
+        res["evaluations"] += 1
+        res["stmt_values_compared"] += compared
+        if compared:
+            res["distinct_nontrivial"] += 1
+            res["traces_validated_against_impl"] += 1
+        key = "stmt:" + (status.split(":")[0] if not fails else "mismatch")
+        if status == "ok-some-refactoring-crashed":
+            res["refactorings_crashed"] = res.get("refactorings_crashed", 0) + 1
+        res["outcomes"][key] = res["outcomes"].get(key, 0) + 1
+        for f in fails[:10]:
+            res["violations"].append({"kind": "stmt", "family": fam, "body": body, "what": f"[{body.replace(chr(10), ' | ')}] {f}",
+                                      "class": "stmt:" + f.split(":")[0]})
+    if shard[1]:
+        res["samples"].append("statement program: " + shard[1][0][1].replace("\n", " | "))
+    return res
 
 
 def run_shard(shard, tier):
@@ -98,6 +220,8 @@ def run_shard(shard, tier):
 
     from vlib import seqx
 
+    if shard[0] == "stmt":
+        return run_stmt_shard(shard, tier)
     return seqx.run_level_shard(sys.modules[__name__], shard, tier, depth_limit=depth_limit(tier))
 
 
@@ -311,6 +435,8 @@ def check_evaluators(model, counters, _nested=False):
 def replay(w):
     from vlib import mgraph
 
+    if w.get("kind") == "stmt":
+        return check_stmt_program(w["body"])[1]
     start, labels = w["history"]
     model = mgraph.build((start, tuple(labels)))
     if model is None:
